@@ -10,7 +10,8 @@ package main
 //	                 equal-length same-prefix strings, each pair in both orders: every decode must
 //	                 return its own value whatever was decoded before
 //	after-failures   k = 1 … 3000 failing decodes (truncated nested values, a bad type byte inside
-//	                 nesting, count bombs), each through recover like a real caller, then valid
+//	                 nesting, count bombs; every second one a chain of 500-2000 nested containers that
+//	                 fails at the innermost level — millions of levels entered and abandoned in total), each through recover like a real caller, then valid
 //	                 nested values of depth 1 … 12 must still round-trip
 //	concurrent       12 goroutines encode and decode their own streams at the same time, all types
 //	                 (the fixed-layout ones over-represented); every result must equal the one
@@ -256,6 +257,47 @@ func stageAfterFailures(seed uint64, thorough bool, res *childResult) {
 		[]byte{71, 0x7f, 0xff},                         // int array, count 32767, no elements
 		[]byte{70, 1, 2, 70, 1, 2, 70, 1, 2, 80, 1, 1}, // nested lists / map cut short
 		[]byte{70, 1, 1, 99})                           // list of one value with unknown tag
+	// DEEP failing inputs: a chain of several hundred to two thousand nested containers (3-6 bytes a
+	// level) that ends in a failure at the innermost level, so that ONE failing decode passes through
+	// (and, if the codec kept such a thing, leaks) its whole depth; every way a decode can end is used
+	deepChain := func(depth int, shape int, tail []byte) []byte {
+		var b []byte
+		for i := 0; i < depth; i++ {
+			switch {
+			case shape == 1 && i%3 == 1:
+				b = append(b, 80, 1, 1, 1, 'k') // map, one entry, key "k"
+			case shape == 2 && i%2 == 1:
+				b = append(b, 81, 1, 1, 0, 0, 0, byte(i)) // int map, one entry
+			default:
+				b = append(b, 70, 1, 1) // list of one
+			}
+		}
+		return append(b, tail...)
+	}
+	var deep [][]byte
+	for _, depth := range []int{500, 900, 1400, 2000} {
+		for shape := 0; shape < 3; shape++ {
+			deep = append(deep,
+				deepChain(depth, shape, nil),                                   // input ends: the tag byte of the innermost value is missing
+				deepChain(depth, shape, []byte{50, 9, 'a'}),                    // innermost text shorter than its length says
+				deepChain(depth, shape, []byte{0xEE}),                          // unknown type byte at the innermost level (CreateValue)
+				deepChain(depth, shape, []byte{70, 4, 0x7f, 0xff, 0xff, 0xff}), // count guard: list of 2^31-1 with nothing behind
+				deepChain(depth, shape, []byte{71, 0xff, 0xff}),                // negative array count
+				deepChain(depth, shape, []byte{73, 0, 2, 1, 'x'}),              // text array cut after its first element
+				deepChain(depth, shape, []byte{45, 0, 0, 0}))                   // fixed-layout summary cut short
+		}
+	}
+	res.Counts["after-failures:deep-inputs"] = len(deep)
+	{ // the unchanged code must be able to decode that depth when the input is complete
+		ok := 0
+		for _, depth := range []int{500, 2000} {
+			b := deepChain(depth, 0, []byte{0})
+			if o := vh.Guard(func() { value.ReadValue(gio.NewDataInputX(b)) }); o.OK() {
+				ok++
+			}
+		}
+		res.Counts["after-failures:deep-valid-decodes-ok"] = ok
+	}
 	for i := 0; i < 20; i++ {
 		b := encode(gen.Container([]string{"l", "m", "im"}[r.Intn(3)], 4).ToGo())
 		if len(b) > 3 {
@@ -270,6 +312,9 @@ func stageAfterFailures(seed uint64, thorough bool, res *childResult) {
 	for _, k := range ks {
 		for i := 0; i < k; i++ {
 			b := bad[(i+k)%len(bad)]
+			if i%2 == 1 {
+				b = deep[(i/2+k)%len(deep)]
+			}
 			o := vh.Guard(func() { value.ReadValue(gio.NewDataInputX(b)) }) // recover: what a real caller does
 			if o.OK() {
 				succeeded++
